@@ -39,3 +39,12 @@ Definition ex_sps_novui : sps_syntax :=
            4 true 119 33 false true true
            true 1 2 3 1
            false ex_vui.
+
+(* FMO map type 6 with 5 map units, transform 8x8 with scaling lists for a 4:4:4 SPS *)
+Definition ex_pps : pps_syntax :=
+  mkPpsSyn 3 5 3 true true 2 6 [] [] false 0 [0; 2; 1; 1; 0]
+           2 1 true 1 (-3)%Z 0%Z 2%Z true false true
+           true true true
+           [Some [0; 3; -3; -8]%Z; None; None; None; None; Some [-8]%Z;
+            Some [1; -9]%Z; None; None; None; None; None]
+           (-2)%Z.
